@@ -796,6 +796,10 @@ func (l *Loader) mergeResult(fetchItem *FetchItem, res *result, items []*astjson
 			return l.renderErrorsFailedToFetch(fetchItem, res, invalidGraphQLResponseShape)
 		}
 
+		if hasErrors {
+			// errors without data: dependants have nothing to be built from
+			l.recordErroredFetchIDLocked(fetchItem)
+		}
 		// we have no data but only errors
 		// skip value completion
 		if hasErrors && l.apolloCompatibilityValueCompletionInExtensions {
@@ -1355,6 +1359,9 @@ func (l *Loader) renderErrorsFailedDeps(fetchItem *FetchItem, res *result) error
 }
 
 func (l *Loader) renderErrorsFailedToFetch(fetchItem *FetchItem, res *result, reason string) error {
+	// A fetch whose response could not be used must not feed its dependants:
+	// they would be sent with null (fabricated) inputs. Runs under the data lock.
+	l.recordErroredFetchIDLocked(fetchItem)
 	l.recordSubgraphError(res, res.err, NewSubgraphError(res.ds, fetchItem.ResponsePath, reason, res.statusCode))
 	errorObject, err := astjson.ParseWithArena(l.jsonArena, l.renderSubgraphBaseError(res.ds, fetchItem.ResponsePath, reason))
 	if err != nil {
@@ -1370,6 +1377,8 @@ func (l *Loader) renderErrorsFailedToFetch(fetchItem *FetchItem, res *result, re
 }
 
 func (l *Loader) renderErrorsStatusFallback(fetchItem *FetchItem, res *result, statusCode int) error {
+	// see renderErrorsFailedToFetch
+	l.recordErroredFetchIDLocked(fetchItem)
 	reason := strconv.Itoa(statusCode)
 	if statusText := http.StatusText(statusCode); statusText != "" {
 		reason += ": " + statusText
